@@ -731,7 +731,11 @@ class IndividualParameters:
 
         ip = cls()
         ip._indices = json_data["indices"]
-        ip._individual_parameters = json_data["individual_parameters"]
+        # the order of the individuals is the one of `indices`, whatever the order of the keys
+        # in the file (e.g. saved with `sort_keys=True`)
+        ip._individual_parameters = {
+            idx: json_data["individual_parameters"][idx] for idx in ip._indices
+        }
         ip._parameters_shape = json_data["parameters_shape"]
 
         # convert json lists to tuple for shapes
